@@ -17,6 +17,8 @@ would across a process boundary.
 from __future__ import annotations
 
 import pickle
+import sys
+import threading
 from concurrent.futures import Future
 
 from .kernel import HarnessError, Sim, Violation
@@ -24,6 +26,122 @@ from .kernel import HarnessError, Sim, Violation
 
 class Blocked(Exception):
     """The code under test waits for something that no enabled simulator event can produce."""
+
+
+class _Kill(BaseException):
+    """Unwinds a parked task body when its run is over (never seen by the code under test as an Exception)."""
+
+
+class BodyThread:
+    """A task body of the simulated THREAD pool that runs concurrently with the other bodies: a real thread that runs
+    only while the driver waits for it, and hands control back at line events of the frames named by `relevant`
+    (tatsu/parproc/task.py and the workload function), after a number of lines chosen by the scheduler.  The driver and
+    the bodies are never runnable at the same time, so who runs is decided by the decision log alone."""
+
+    def __init__(self, fn, args, kwargs, relevant):
+        self.fn, self.args, self.kwargs = fn, args, kwargs
+        self.relevant = relevant
+        self.go = threading.Semaphore(0)
+        self.back = threading.Semaphore(0)
+        self.done = False
+        self.out = None
+        self.budget = 0
+        self.kill = False
+        self.blocked_on = None
+        self.t = threading.Thread(target=self._main, daemon=True, name="sim-body")
+        self.t.start()
+
+    def yield_now(self):
+        self.back.release()
+        self.go.acquire()
+        if self.kill:
+            raise _Kill()
+
+    def _main(self):
+        self.go.acquire()
+        _BODY.w = self
+        try:
+            if self.kill:
+                raise _Kill()
+            sys.settrace(self._trace)
+            try:
+                self.out = ("ok", self.fn(*self.args, **self.kwargs))
+            finally:
+                sys.settrace(None)
+        except _Kill:
+            self.out = ("exc", HarnessError("task body abandoned at the end of the run"))
+        except BaseException as e:  # noqa: BLE001  what the pool puts into the future
+            self.out = ("exc", e)
+        self.done = True
+        self.back.release()
+
+    def _trace(self, frame, event, arg):
+        if event == "call" and self.relevant(frame.f_code):
+            return self._local
+        return None
+
+    def _local(self, frame, event, arg):
+        if event == "line":
+            self.budget -= 1
+            if self.budget <= 0:
+                self.back.release()
+                self.go.acquire()
+                if self.kill:
+                    raise _Kill()
+        return self._local
+
+    def slice(self, budget: int) -> None:
+        """Let the body run for `budget` relevant lines (or to its end)."""
+        self.budget = budget
+        self.go.release()
+        if not self.back.acquire(timeout=120):
+            raise HarnessError("task body never came back (real deadlock inside a simulated thread?)")
+
+    def abandon(self) -> None:
+        if not self.done:
+            self.kill = True
+            self.go.release()
+            self.back.acquire(timeout=30)
+        self.t.join(timeout=5)
+
+
+_BODY = threading.local()
+
+
+class CoopLock:
+    """Stands in for a module-level threading.Lock of the code under test while task bodies are interleaved: a body
+    that finds the lock held by a parked body hands control back to the driver instead of blocking for real."""
+
+    def __init__(self):
+        self._l = threading.Lock()
+
+    def acquire(self, blocking=True, timeout=-1):
+        while not self._l.acquire(False):
+            w = getattr(_BODY, "w", None)
+            if w is None or not blocking:
+                if not blocking:
+                    return False
+                raise HarnessError("a lock of the code under test is held by a parked task body while the driver wants it")
+            w.blocked_on = self  # not schedulable until the holder has let go (see ExecEnv.enabled)
+            w.yield_now()
+        w = getattr(_BODY, "w", None)
+        if w is not None:
+            w.blocked_on = None
+        return True
+
+    def release(self):
+        self._l.release()
+
+    def locked(self):
+        return self._l.locked()
+
+    def __enter__(self):
+        self.acquire()
+        return self
+
+    def __exit__(self, *a):
+        self.release()
+        return False
 
 
 class ExecEnv:
@@ -43,6 +161,11 @@ class ExecEnv:
         self.max_inflight = 0
         self.ac_rounds = 0
         self.in_consumer_wait = False
+        # thread pools: task bodies interleave at line granularity (per-run knob); `relevant(code)` names the frames
+        self.concurrent_bodies = False
+        self.gap_mean = 4
+        self.relevant = lambda code: False
+        self.bodies: list[BodyThread] = []
 
     # -- event machinery ------------------------------------------------------------------
     def enabled(self):
@@ -51,8 +174,14 @@ class ExecEnv:
             if p.pending and len(p.running) < p.max_workers:
                 evs.append(("start", p, None))
             for ent in p.running:
-                evs.append(("complete", p, ent))
-        fast = [e for e in evs if not (e[0] == "complete" and e[2]["key"] in self.slow_keys)]
+                w = ent.get("worker")
+                if w is not None and not w.done:
+                    if w.blocked_on is not None and w.blocked_on.locked():
+                        continue  # waits for a lock that another (parked) body holds
+                    evs.append(("step", p, ent))
+                else:
+                    evs.append(("complete", p, ent))
+        fast = [e for e in evs if not (e[0] in ("complete", "step") and e[2]["key"] in self.slow_keys)]
         return fast or evs
 
     def fire_one(self, evs) -> None:
@@ -62,6 +191,8 @@ class ExecEnv:
         try:
             if kind == "start":
                 pool._start_head()
+            elif kind == "step":
+                pool._step(ent)
             else:
                 pool._complete(ent)
         finally:
@@ -82,6 +213,11 @@ class ExecEnv:
             fired += 1
         if fired >= 2:
             self.sim.probe("burst>=2_events_at_one_seam")
+
+    def abandon_bodies(self) -> None:
+        for w in self.bodies:
+            w.abandon()
+        self.bodies.clear()
 
     def wait_until(self, cond, what: str) -> None:
         while not cond():
@@ -153,6 +289,14 @@ def make_pool_class(env: ExecEnv, kind: str):
             fn, args, kwargs = ent["fn"], ent["args"], ent["kwargs"]
             import sys as _sys
 
+            if kind == "thread" and env.concurrent_bodies:
+                # the body runs in a thread of its own, interleaved with the other bodies line by line
+                ent["worker"] = BodyThread(fn, args, kwargs, env.relevant)
+                env.bodies.append(ent["worker"])
+                ent["out"] = None
+                self.running.append(ent)
+                return
+
             saved_limit = _sys.getrecursionlimit()
             if getattr(env, "fresh_worker_state", False):
                 # a worker process does not inherit what the parent set at run time (spawn / forkserver start methods):
@@ -183,6 +327,14 @@ def make_pool_class(env: ExecEnv, kind: str):
             finally:
                 _sys.setrecursionlimit(saved_limit)
             self.running.append(ent)
+
+        def _step(self, ent):
+            w = ent["worker"]
+            gap = 1 + env.sim.choose("gap", 2 * env.gap_mean)
+            w.slice(gap)
+            if w.done:
+                ent["out"] = w.out
+                env.sim.probe("task_body_ran_interleaved")
 
         def _complete(self, ent):
             self.running.remove(ent)
